@@ -1,1 +1,59 @@
-import EoNVerif.Model.EventSIS
+import EoNVerif.Proofs.EventSIS2
+/-!
+C13 — target statements: the lazy chained-attempt queue of `fast_nonMarkov_SIS` refines the naive reference
+semantics (every listed attempt is an agenda entry; an attempt infects iff the target is susceptible at that instant).
+-/
+namespace EventSIS
+
+/-- nothing at or after `tmax` is reported (every fuel) -/
+theorem log_before_tmax (P : SSParams) (infs : List Node) (fuel : Nat) :
+    ∀ c ∈ (run P infs fuel).log, c.1 < P.tmax := (InvA_run P infs fuel).log_lt
+
+/-- only susceptible nodes get infected and only infectious nodes recover: the log alternates per node, starting
+with an infection -/
+theorem log_alternates (P : SSParams) (infs : List Node) (h : WF P infs) (fuel : Nat) (v : Node) :
+    let l := ((run P infs fuel).log.reverse.filter fun c => c.2.1 == v).map fun c => c.2.2
+    (∀ i, i < l.length → l.getD i false = (i % 2 == 0)) := by
+  intro l i hi
+  have hB := InvB_run P infs fuel v
+  have hl : l = (nlog (run P infs fuel).log v).map fun c => c.2.2 := rfl
+  rw [hl] at hi ⊢
+  simp only [List.length_map] at hi
+  rw [List.getD_eq_getElem?_getD, List.getElem?_map, List.getElem?_eq_getElem hi]
+  exact hB.alt i _ (List.getElem?_eq_getElem hi)
+
+/-- every recovery happens exactly `dur` after the corresponding infection -/
+theorem recovery_after_dur (P : SSParams) (infs : List Node) (h : WF P infs) (fuel : Nat) (v : Node) (i : Nat) :
+    let l := (run P infs fuel).log.reverse.filter fun c => c.2.1 == v
+    ∀ ci cr, l[2 * i]? = some ci → l[2 * i + 1]? = some cr → cr.1 = ci.1 + P.dur v i :=
+  (InvB_run P infs fuel v).pair i
+
+/-- every reported transmission is a listed attempt: the infector was infected `d` earlier for a listed delay `d` of
+the infection it was then in -/
+theorem trans_is_listed_attempt (P : SSParams) (infs : List Node) (h : WF P infs) (fuel : Nat) :
+    ∀ e ∈ (run P infs fuel).trans,
+      match e.2.1 with
+      | none => e.2.2 ∈ infs ∧ e.1 = P.tmin
+      | some u => e.2.2 ∈ P.nbrs u ∧
+          ∃ eu ∈ (run P infs fuel).trans, eu.2.2 = u ∧ ∃ k d, d ∈ P.delays u e.2.2 k ∧ eu.1 + d = e.1 :=
+  (InvC_run P infs fuel).tr
+
+/-- **refinement (full statement)**: for ascending positive delay lists, positive durations and pairwise distinct
+event times, once both runs have emptied their queues the lazy queue and the reference agenda produce the same
+status-change log and the same transmission list -/
+theorem nmSIS_refines (P : SSParams) (infs : List Node) (h : WF P infs) (fuel : Nat)
+    (hq : (run P infs fuel).queue = []) (ha : (refRun P infs fuel).agenda = [])
+    (hd : distinctTimes P.tmin (refRun P infs fuel).seen = true) :
+    (run P infs fuel).log = (refRun P infs fuel).log ∧ (run P infs fuel).trans = (refRun P infs fuel).trans :=
+  refines_main h fuel ha hd
+
+end EventSIS
+
+/-! non-vacuity: a reinfection of node 0 by node 1 through a chained second attempt -/
+def exS : SSParams :=
+  { nodes := [0, 1], nbrs := fun u => if u = 0 then [1] else if u = 1 then [0] else [],
+    dur := fun u k => if u = 0 then (if k = 0 then 1 else 1/2) else 3, delays := fun u _ _ => if u = 1 then [1/2, 2] else [1/4],
+    tmin := 0, tmax := 10 }
+#eval (EventSIS.run exS [0] 100).log.reverse
+#eval (EventSIS.refRun exS [0] 100).log.reverse
+#eval EventSIS.distinctTimes 0 (EventSIS.refRun exS [0] 100).seen
